@@ -384,6 +384,41 @@ def r9_foreign_forwarding(idx, r):
         raise AnalysisError(f"only {n} foreign forwarding sites found")
 
 
+def r10_dependents_and_side_densities(idx, r):
+    """(a) clearLinkedCache invalidates the cached volume of every component linked TO this one; the search must look at
+    every dimension of every sibling - it may stop scanning a sibling only once a link to THIS component was found.
+    (b) every side table of densities (detailedNDens, pinNDens) is rescaled whenever it is present - each under its own
+    None-test only; an early exit keyed on one table must not skip the other."""
+    f = idx.method(COMP, "getLinkedComponents")
+    if f is None:
+        raise AnchorMissing("Component.getLinkedComponents")
+    loops = [n for n in walk_local(f.node) if isinstance(n, ast.For)]
+    if len(loops) < 2:
+        raise AnalysisError("getLinkedComponents: nested scan over siblings and their dimensions not found")
+    exits = [n for n in walk_local(f.node) if isinstance(n, (ast.Break, ast.Return)) and not (isinstance(n, ast.Return) and n is f.node.body[-1])]
+    for x in exits:
+        conds = path_conditions(f.node, x)
+        found = any(pol and "is self" in norm(t) for t, pol in conds)
+        r.require(found, f"getLinkedComponents:{type(x).__name__.lower()}-only-after-match", f, node=x,
+                  msg="the scan of a sibling's dimensions stops before a link to THIS component was found (e.g. after the first linked dimension, whoever it links to): "
+                      "a sibling whose first link points elsewhere is missed and keeps a stale cached volume when this component expands")
+    if not exits:
+        r.ok("getLinkedComponents:exhaustive-scan", f)
+    for owner, meth in ((COMP, "_changeOtherDensParamsByFactor"), ("armi.reactor.composites.ArmiObject", "changeNDensByFactor")):
+        g = idx.method(owner, meth)
+        if g is None:
+            raise AnchorMissing(f"{owner}.{meth}")
+        for fld in ("detailedNDens", "pinNDens"):
+            aug = [n for n in walk_local(g.node) if isinstance(n, ast.AugAssign) and isinstance(n.op, ast.Mult) and norm(n.target) == f"self.p.{fld}"]
+            if not aug:
+                r.violate(f"{owner.rsplit('.', 1)[-1]}.{meth}:{fld}:scaled", g, f"`self.p.{fld}` is not multiplied by the factor")
+                continue
+            foreign = [(norm(t), pol) for t, pol in path_conditions(g.node, aug[0]) if fld not in norm(t)]
+            r.require(not foreign, f"{owner.rsplit('.', 1)[-1]}.{meth}:{fld}:scaled-whenever-present", g, node=aug[0],
+                      msg=f"`self.p.{fld}` is rescaled only when {foreign}: it must be rescaled whenever it is present, or pin / detailed densities stop following "
+                          "the component's thermal expansion (mass per unit height of that table drifts)")
+
+
 def run(idx, chk):
     chk.explanation = (
         "C03: every two-dimensional shape's area formula is typed in the free abelian group generated by the linear expansion factor L "
@@ -405,3 +440,5 @@ def run(idx, chk):
                  necessary="'at temperature T' holds for every T in range, 0 degrees C included")
     chk.run_rule("R03.9", "an optional Tc forwarded to another object is still the caller's argument (no local default resolved before)", lambda r: r9_foreign_forwarding(idx, r), floor=3,
                  necessary="a linked dimension follows the linked component at ITS temperature")
+    chk.run_rule("R03.10", "the search for linked dependents is exhaustive; every density side table is rescaled whenever present", lambda r: r10_dependents_and_side_densities(idx, r), floor=5,
+                 necessary="mass per unit height of every component is conserved at every temperature change; linked components follow")
